@@ -26,10 +26,28 @@ type StreamFace struct {
 	sendMut sync.Mutex
 }
 
+// tlHeaderReader keeps the bytes of the type and length numbers as they are read.
+// A number need not be written in its shortest form, so the header of a block
+// cannot be rebuilt from the two values.
+type tlHeaderReader struct {
+	r   io.ByteReader
+	hdr []byte
+}
+
+func (h *tlHeaderReader) ReadByte() (byte, error) {
+	b, err := h.r.ReadByte()
+	if err == nil {
+		h.hdr = append(h.hdr, b)
+	}
+	return b, err
+}
+
 func (f *StreamFace) Run() {
 	r := bufio.NewReader(f.conn)
+	hr := tlHeaderReader{r: r}
 	for f.running.Load() {
-		t, err := enc.ReadTLNum(r)
+		hr.hdr = hr.hdr[:0]
+		_, err := enc.ReadTLNum(&hr)
 		if err != nil {
 			if !f.running.Load() {
 				break
@@ -39,7 +57,7 @@ func (f *StreamFace) Run() {
 				break
 			}
 		}
-		l, err := enc.ReadTLNum(r)
+		l, err := enc.ReadTLNum(&hr)
 		if err != nil {
 			if !f.running.Load() {
 				break
@@ -55,12 +73,11 @@ func (f *StreamFace) Run() {
 			f.onError(errors.New("received TLV block larger than the maximum packet size"))
 			break
 		}
-		l0 := t.EncodingLength()
-		l1 := l.EncodingLength()
-		buf := make([]byte, l0+l1+int(l))
-		t.EncodeInto(buf)
-		l.EncodeInto(buf[l0:])
-		_, err = io.ReadFull(r, buf[l0+l1:])
+		// Hand over the block as it was received, header included
+		l0 := len(hr.hdr)
+		buf := make([]byte, l0+int(l))
+		copy(buf, hr.hdr)
+		_, err = io.ReadFull(r, buf[l0:])
 		if err != nil {
 			if !f.running.Load() {
 				break
